@@ -530,7 +530,11 @@ func History(t *rapid.T, o HistOpt) *hist.History {
 							}
 						}
 						if small {
-							u.Items[j].Repeat = rapid.SampledFrom([]int{4, 11, 21, 41, 1100}).Draw(t, "long_tx_repeat")
+							reps := []int{4, 11, 21, 41, 1100, 1100}
+							if o.Scale {
+								reps = append(reps, 33000) // more than 2^16 events in one transaction
+							}
+							u.Items[j].Repeat = rapid.SampledFrom(reps).Draw(t, "long_tx_repeat")
 						}
 						break
 					}
